@@ -1088,6 +1088,20 @@ func gbLocus(b *strings.Builder, src *source) {
 	// variable goes: a field of the GenBankFields literal, the depth handed to the generators, the
 	// length handed to makeGenbankOriginParser
 	fd := findFunc(src.file, "GenBankParser")
+	if fd == nil {
+		refuse("genbank.go: GenBankParser not found")
+	}
+	// the name of the *pars.Result parameter
+	resName := ""
+	for _, f := range fd.Type.Params.List {
+		if nodeText(f.Type) == "*pars.Result" && len(f.Names) == 1 {
+			resName = f.Names[0].Name
+		}
+	}
+	if resName == "" {
+		refuse("genbank.go: GenBankParser has no *pars.Result parameter")
+	}
+	children := resName + ".Children"
 	type use struct {
 		child int
 		form  string
@@ -1101,7 +1115,7 @@ func gbLocus(b *strings.Builder, src *source) {
 		}
 		child, form, n := -1, "", 0
 		ast.Inspect(as.Rhs[0], func(y ast.Node) bool {
-			if ix, ok := y.(*ast.IndexExpr); ok && exprString(ix.X) == "result.Children" {
+			if ix, ok := y.(*ast.IndexExpr); ok && exprString(ix.X) == children {
 				l, isLit := ix.Index.(*ast.BasicLit)
 				if !isLit || l.Kind != token.INT {
 					refuse("genbank.go: GenBankParser: result.Children[…] with a non-literal index")
@@ -1117,7 +1131,7 @@ func gbLocus(b *strings.Builder, src *source) {
 		if n > 1 {
 			refuse("genbank.go: GenBankParser: a statement reads two children of the LOCUS result")
 		}
-		form = strings.Replace(nodeText(as.Rhs[0]), "result.Children["+strconv.Itoa(child)+"]", "#", 1)
+		form = strings.Replace(nodeText(as.Rhs[0]), children+"["+strconv.Itoa(child)+"]", "#", 1)
 		v := identName(as.Lhs[0])
 		if v == "" {
 			refuse("genbank.go: GenBankParser: a LOCUS child is assigned to %s", exprString(as.Lhs[0]))
@@ -1128,7 +1142,7 @@ func gbLocus(b *strings.Builder, src *source) {
 	// any other mention of result.Children is outside the shape
 	total := 0
 	ast.Inspect(fd, func(y ast.Node) bool {
-		if ix, ok := y.(*ast.IndexExpr); ok && exprString(ix.X) == "result.Children" {
+		if ix, ok := y.(*ast.IndexExpr); ok && exprString(ix.X) == children {
 			total++
 		}
 		return true
